@@ -179,6 +179,23 @@ impl<C: CellType> OptLoop<C> {
     }
 }
 
+/// Compute `1 + mul + mul^2 + ... + mul^(count - 1)`, the sum of the first `count`
+/// powers of `mul`, wrapping around. This is what `count` repetitions of `x = mul * x + 1`
+/// make out of zero, and is computed by repeated squaring of that affine map.
+fn wrapping_geometric_sum<C: CellType>(mul: C, mut count: C) -> C {
+    let mut sum = C::ZERO;
+    let (mut sq_mul, mut sq_add) = (mul, C::ONE);
+    while count != C::ZERO {
+        if count.is_odd() {
+            sum = sq_mul.wrapping_mul(sum).wrapping_add(sq_add);
+        }
+        sq_add = sq_mul.wrapping_mul(sq_add).wrapping_add(sq_add);
+        sq_mul = sq_mul.wrapping_mul(sq_mul);
+        count = count.wrapping_shr(1);
+    }
+    sum
+}
+
 impl<C: CellType> OptRebuild<'_, C> {
     /// Remove the pending operation for the variable `var`. Return the operation
     /// that was pending, if there was any.
@@ -758,22 +775,16 @@ impl<C: CellType> OptRebuild<'_, C> {
                                 None,
                             ];
                         } else if inc.variables().all(|x| constant.contains(&x)) {
-                            if let Some(m) = mul
-                                .wrapping_pow(c)
-                                .wrapping_mul(mul)
-                                .wrapping_add(C::NEG_ONE)
-                                .wrapping_div(mul.wrapping_add(C::NEG_ONE))
-                            {
-                                return [
-                                    Some(
-                                        Expr::val(mul.wrapping_pow(c))
-                                            .mul(Expr::var(var))
-                                            .add(Expr::val(m).mul(inc)),
-                                    ),
-                                    None,
-                                    None,
-                                ];
-                            }
+                            let m = wrapping_geometric_sum(mul, c);
+                            return [
+                                Some(
+                                    Expr::val(mul.wrapping_pow(c))
+                                        .mul(Expr::var(var))
+                                        .add(Expr::val(m).mul(inc)),
+                                ),
+                                None,
+                                None,
+                            ];
                         }
                     }
                 }
